@@ -229,9 +229,13 @@ theorem DiagLegal.slotLegal {H : Ham} {c : Config} (h : DiagLegal H c) (p : Nat)
 
 /-! ### the visits of the Metropolis sweep stay in a set closed under the proposals -/
 
+theorem clipProb_zero_num {den : Rat} (hd : 0 ≤ den) : clipProb 0 den = 0 := by
+  unfold clipProb
+  rw [if_neg (not_lt.mpr hd)]; simp
+
 theorem metropolisSlotT_slots (H : Ham) (β : Rat) (L : Nat) (s : Option Op) (st : List Bool) (n : Nat) :
     PT.All (fun r : SlotOut => r.slot = s ∨
-      (s = none ∧ ∃ b, b < H.nbonds ∧
+      (s = none ∧ ∃ b, b < H.nbonds ∧ H.w b (readVars st (H.vars b)) (readVars st (H.vars b)) ≠ 0 ∧
         r.slot = some (Op.diagonal (H.vars b) b (readVars st (H.vars b)) (H.const b))) ∨
       (∃ o, s = some o ∧ o.tagDiag = true ∧ r.slot = none)) (metropolisSlotT H β L s st n) := by
   unfold metropolisSlotT
@@ -242,7 +246,11 @@ theorem metropolisSlotT_slots (H : Ham) (β : Rat) (L : Nat) (s : Option Op) (st
     simp only
     split
     · exact PT.All_panic _
-    · exact PT.All_clipped (Or.inr (Or.inl ⟨trivial, b, hb, rfl⟩)) (Or.inl rfl)
+    · refine PT.All_clipped_w (fun hne => Or.inr (Or.inl ⟨trivial, b, hb, ?_, rfl⟩)) (Or.inl rfl)
+      intro hz
+      apply hne
+      rw [hz, mul_zero]
+      exact clipProb_zero_num (Nat.cast_nonneg _)
   | some op =>
     simp only
     split
@@ -252,64 +260,94 @@ theorem metropolisSlotT_slots (H : Ham) (β : Rat) (L : Nat) (s : Option Op) (st
       · exact PT.All_clipped (Or.inr (Or.inr ⟨op, rfl, hd, rfl⟩)) (Or.inl rfl)
     · exact Or.inl rfl
 
+/-- **closure under the diagonal proposals, up to proposals of probability 0**: a proposal leaves `S`
+only by inserting an operator of weight 0 (which both updates do with probability 0) -/
+def SlotClosed (H : Ham) (S : Finset Config) : Prop :=
+  ∀ p b, b < H.nbonds → ∀ c ∈ S, slotFlip H p b c ∈ S ∨ (c.slots[p]? = some none ∧ curW H c p b = 0)
+
+theorem SlotClosed.of_closed {H : Ham} {S : Finset Config}
+    (h : ∀ p b, b < H.nbonds → ∀ c ∈ S, slotFlip H p b c ∈ S) : SlotClosed H S :=
+  fun p b hb c hc => Or.inl (h p b hb c hc)
+
 theorem getElem?_getD {c : Config} {p : Nat} (hp : p < c.slots.length) :
     c.slots[p]? = some (c.slots.getD p none) := by
   rw [List.getD_eq_getElem?_getD, List.getElem?_eq_getElem hp]; rfl
 
 theorem slotCfgT_metropolis_closed (H : Ham) (β : Rat) (L : Nat) (S : Finset Config)
-    (hcl : ∀ p b, b < H.nbonds → ∀ c ∈ S, slotFlip H p b c ∈ S) (a : Config) (ha : a ∈ S)
+    (hcl : SlotClosed H S) (a : Config) (ha : a ∈ S)
     (hleg : DiagLegal H a) (q : Nat) (hq : q < a.slots.length) :
     PT.All (fun b => b ∈ S) (slotCfgT (metropolisSlotT H β L) q a) := by
   unfold slotCfgT
   have hs := getElem?_getD hq
   refine PT.All_map _ (metropolisSlotT_slots H β L _ _ _) (fun r hr => ?_)
-  rcases hr with h | ⟨hn, b, hb, h⟩ | ⟨o, ho, hd, h⟩
+  rcases hr with h | ⟨hn, b, hb, hwb, h⟩ | ⟨o, ho, hd, h⟩
   · rw [h, setSlot_self hs]; exact ha
   · rw [hn] at hs
-    have := hcl q b hb a ha
-    rw [slotFlip_empty hs] at this
-    rw [h]; exact this
+    rcases hcl q b hb a ha with this | ⟨-, hz⟩
+    · rw [slotFlip_empty hs] at this
+      rw [h]; exact this
+    · exact absurd hz hwb
   · rw [ho] at hs
     obtain ⟨hb, hcanon⟩ := hleg.op hs hd
-    have := hcl q o.bond hb a ha
-    rw [slotFlip_canon (by rw [hs, ← hcanon])] at this
-    rw [h]; exact this
+    rcases hcl q o.bond hb a ha with this | ⟨hn, -⟩
+    · rw [slotFlip_canon (by rw [hs, ← hcanon])] at this
+      rw [h]; exact this
+    · rw [hs] at hn; cases hn
 
-/-! ### law of the Metropolis sweep -/
+/-! ### law of a sweep, generic in the slot function -/
 
 /-- with the cutoff equal to the number of slots, the sweep tree is the plain fold over all slots -/
-theorem metropolisSweepT_eq (H : Ham) (β : Rat) (c : Config) :
-    metropolisSweepT H β c.slots.length c =
+theorem sweepT_eq (f : Option Op → List Bool → Nat → PT SlotOut) (c : Config) :
+    PT.map (fun x : Config × Nat => x.1) (sweepT f c.slots.length c) =
       PT.map (fun x : Slots × List Bool × Nat => ({ state := x.2.1, slots := x.1 } : Config))
-        (sweepAuxT (metropolisSlotT H β c.slots.length) c.slots c.state (countOps c.slots)) := by
-  unfold metropolisSweepT sweepT padSlots
+        (sweepAuxT f c.slots c.state (countOps c.slots)) := by
+  unfold sweepT padSlots
   simp [PT.map_map]
 
-/-- **law of the Metropolis sweep = `sweepKM`**, on every finite set `S` of legal configurations with
-`L` slots that the diagonal proposals do not leave -/
-theorem law_metropolisSweep (H : Ham) (β : Rat) (hβ : 0 ≤ β) (hw : ∀ b i, 0 ≤ H.w b i i)
-    (hNb : 0 < H.nbonds) (S : Finset Config) (L : Nat)
-    (hcl : ∀ p b, b < H.nbonds → ∀ c ∈ S, slotFlip H p b c ∈ S)
-    (hleg : ∀ c ∈ S, DiagLegal H c ∧ c.slots.length = L) :
-    lawK S (metropolisSweepT H β L) = sweepKM H β S L := by
-  have h1 : lawK S (metropolisSweepT H β L) = lawK S (cfgSweepT (metropolisSlotT H β L) 0 L) := by
+/-- the law of the sweep tree (cutoff = number of slots, rolling state closes) is the law of the
+consecutive visits of the configuration produced so far -/
+theorem law_sweepT_eq_cfgSweepT (f : Option Op → List Bool → Nat → PT SlotOut) (hf : SlotLeafOK f)
+    (c : Config) (hper : rollState c.state c.slots = c.state) (b : Config) :
+    PT.law (PT.map (fun x : Config × Nat => x.1) (sweepT f c.slots.length c)) b =
+      PT.law (cfgSweepT f 0 c.slots.length c) b := by
+  rw [sweepT_eq f c]
+  have h2 := law_sweepAuxT_eq_cfgSweepT f hf c.state b c.slots []
+  simp only [List.nil_append, rollState, List.length_nil] at h2
+  rw [← h2]
+  refine PT.map_congr_All (fun x hx => ?_) b _ (sweepAuxT_state f hf _ _ _)
+  have hx' : x.2.1 = rollState c.state c.slots := hx
+  show ({ state := x.2.1, slots := x.1 } : Config) = _
+  rw [hx', hper]
+
+/-- consecutive visits stay in a set the single visits do not leave -/
+theorem cfgSweepT_closed (f : Option Op → List Bool → Nat → PT SlotOut) (S : Finset Config) :
+    ∀ (k p : Nat), (∀ q, p ≤ q → q < p + k → ∀ a ∈ S, PT.All (fun b => b ∈ S) (slotCfgT f q a)) →
+      ∀ a ∈ S, PT.All (fun b => b ∈ S) (cfgSweepT f p k a)
+  | 0, _, _, _, ha => ha
+  | k + 1, p, h, a, ha =>
+    PT.All_bind _ (h p (Nat.le_refl p) (by omega) a ha)
+      (fun b hb => cfgSweepT_closed f S k (p + 1) (fun q h1 h2 => h q (by omega) (by omega)) b hb)
+
+/-- **the law of a sweep is the composition of the laws of its slot visits**: for a slot function whose
+leaves keep rolling state and count in step (`SlotLeafOK`), on a finite set `S` of configurations with `L`
+slots whose rolling state closes and which the slot visits do not leave, if the law of the visit of slot
+`q` is the row of the kernel `K q`, then the law of the sweep is `K 0 ; K 1 ; … ; K (L−1)` -/
+theorem law_sweep_eq_compList (f : Option Op → List Bool → Nat → PT SlotOut) (hf : SlotLeafOK f)
+    (K : Nat → Config → Config → Rat) (S : Finset Config) (L : Nat)
+    (hclosed : ∀ q, q < L → ∀ a ∈ S, PT.All (fun b => b ∈ S) (slotCfgT f q a))
+    (hper : ∀ c ∈ S, rollState c.state c.slots = c.state ∧ c.slots.length = L)
+    (hslot : ∀ q, q < L → ∀ a ∈ S, ∀ b, PT.law (slotCfgT f q a) b = K q a b) :
+    lawK S (fun c => PT.map (fun x : Config × Nat => x.1) (sweepT f L c)) =
+      compList ((List.range L).map fun p => restr S (K p)) := by
+  have h1 : lawK S (fun c => PT.map (fun x : Config × Nat => x.1) (sweepT f L c)) =
+      lawK S (cfgSweepT f 0 L) := by
     funext a b
     unfold lawK
-    obtain ⟨hl, hL⟩ := hleg a.1 a.2
-    have e := metropolisSweepT_eq H β a.1
+    obtain ⟨hl, hL⟩ := hper a.1 a.2
+    have e := law_sweepT_eq_cfgSweepT f hf a.1 hl b.1
     rw [hL] at e
-    rw [e]
-    have h2 := law_sweepAuxT_eq_cfgSweepT _ (metropolisSlotT_leafOK H β L) a.1.state b.1 a.1.slots []
-    simp only [List.nil_append, rollState, List.length_nil, hL] at h2
-    rw [← h2]
-    refine PT.map_congr_All (fun x hx => ?_) b.1 _ (sweepAuxT_state _ (metropolisSlotT_leafOK H β L) _ _ _)
-    have hx' : x.2.1 = rollState a.1.state a.1.slots := hx
-    show ({ state := x.2.1, slots := x.1 } : Config) = _
-    rw [hx', hl.2.2]
-  rw [h1, lawK_cfgSweepT _ S L 0 (fun q _ hq a ha => by
-    obtain ⟨hl, hL⟩ := hleg a ha
-    exact slotCfgT_metropolis_closed H β L S hcl a ha hl q (by omega))]
-  unfold sweepKM
+    exact e
+  rw [h1, lawK_cfgSweepT f S L 0 (fun q _ hq a ha => hclosed q (by omega) a ha)]
   rw [List.range_eq_range']
   congr 1
   refine List.map_congr_left (fun q hq => ?_)
@@ -317,12 +355,39 @@ theorem law_metropolisSweep (H : Ham) (β : Rat) (hβ : 0 ≤ β) (hw : ∀ b i,
     have := List.mem_range'_1.mp hq
     omega
   funext a b
-  obtain ⟨hl, hL⟩ := hleg a.1 a.2
-  unfold lawK slotCfgT restr
-  have := law_metropolisSlot H β hβ hw hNb a.1 q _ (getElem?_getD (by omega)) (hl.slotLegal q) b.1
-  rw [hL] at this
-  exact this
+  exact hslot q hq' a.1 a.2 b.1
 
+/-- no idealised mass of a sweep leaves a set the slot visits do not leave -/
+theorem law_sweep_zero_off (f : Option Op → List Bool → Nat → PT SlotOut) (hf : SlotLeafOK f)
+    (S : Finset Config) (L : Nat)
+    (hclosed : ∀ q, q < L → ∀ a ∈ S, PT.All (fun b => b ∈ S) (slotCfgT f q a))
+    (hper : ∀ c ∈ S, rollState c.state c.slots = c.state ∧ c.slots.length = L)
+    (a : Config) (ha : a ∈ S) (b : Config) (hb : b ∉ S) :
+    PT.law (PT.map (fun x : Config × Nat => x.1) (sweepT f L a)) b = 0 := by
+  obtain ⟨hl, hL⟩ := hper a ha
+  have e := law_sweepT_eq_cfgSweepT f hf a hl b
+  rw [hL] at e
+  rw [e]
+  exact PT.law_eq_zero_of_All _
+    (cfgSweepT_closed f S L 0 (fun q _ hq a ha => hclosed q (by omega) a ha) a ha) b hb
+
+/-! ### law of the Metropolis sweep -/
+
+/-- **law of the Metropolis sweep = `sweepKM`**, on every finite set `S` of legal configurations with
+`L` slots that the diagonal proposals do not leave -/
+theorem law_metropolisSweep (H : Ham) (β : Rat) (hβ : 0 ≤ β) (hw : ∀ b i, 0 ≤ H.w b i i)
+    (hNb : 0 < H.nbonds) (S : Finset Config) (L : Nat) (hcl : SlotClosed H S)
+    (hleg : ∀ c ∈ S, DiagLegal H c ∧ c.slots.length = L) :
+    lawK S (metropolisSweepT H β L) = sweepKM H β S L := by
+  refine law_sweep_eq_compList (metropolisSlotT H β L) (metropolisSlotT_leafOK H β L) (slotKM H β) S L
+    (fun q hq a ha => ?_) (fun c hc => ⟨(hleg c hc).1.2.2, (hleg c hc).2⟩) (fun q hq a ha b => ?_)
+  · obtain ⟨hl, hL⟩ := hleg a ha
+    exact slotCfgT_metropolis_closed H β L S hcl a ha hl q (by omega)
+  · obtain ⟨hl, hL⟩ := hleg a ha
+    unfold slotCfgT
+    have := law_metropolisSlot H β hβ hw hNb a q _ (getElem?_getD (by omega)) (hl.slotLegal q) b
+    rw [hL] at this
+    exact this
 
 /-! ### the space of legal configurations -/
 
@@ -429,27 +494,56 @@ theorem legalSpace_legal (H : Ham) (N L : Nat) :
 
 /-! ### invariance of the law of the executable sweep -/
 
+theorem legalSpace_slotClosed (H : Ham) (N L : Nat) : SlotClosed H (legalSpace H N L) :=
+  SlotClosed.of_closed (legalSpace_slotFlip H N L)
+
+/-- conservation of probability of `movesK` on a finite set that a proposal leaves only with
+probability 0 -/
+theorem movesK_rowSumOn_of_zero {α ι : Type} [DecidableEq α] [Fintype ι] {f : ι → α → α}
+    {A : ι → α → Rat} {S : Finset α} (hcl : ∀ i, ∀ a ∈ S, f i a ∈ S ∨ A i a = 0) :
+    RowSumOn S (movesK f A) := by
+  intro a ha
+  unfold movesK
+  rw [Finset.sum_add_distrib, Finset.sum_comm]
+  have h1 : ∀ i, (∑ b ∈ S, if b = f i a ∧ f i a ≠ a then A i a else 0) =
+      (if f i a ≠ a then A i a else 0) := by
+    intro i
+    by_cases hm : f i a = a
+    · simp [hm]
+    · simp only [hm, and_true, not_false_eq_true, if_true, ne_eq]
+      rcases hcl i a ha with hin | hz
+      · rw [Finset.sum_ite_eq' S (f i a) (fun _ => A i a), if_pos hin]
+      · rw [hz]; simp
+  rw [Finset.sum_congr rfl (fun i _ => h1 i), Finset.sum_ite_eq' S a, if_pos ha]
+  ring
+
+theorem slotKM_rowSumOn_w (H : Ham) (β : Rat) (p : Nat) {S : Finset Config} (hcl : SlotClosed H S) :
+    RowSumOn S (slotKM H β p) := by
+  refine movesK_rowSumOn_of_zero (fun b c hc => ?_)
+  rcases hcl p b.val b.isLt c hc with h | ⟨h1, h2⟩
+  · exact Or.inl h
+  · right
+    simp only [slotProbM, h1, h2, pInsertM_zero]
+
 /-- the sweep kernel is invariant on every finite set the diagonal proposals do not leave (as
-`Kernel.sweep_invariant`, which asks in addition for closure under the idle toggles) -/
+`Kernel.sweep_invariant`, which asks in addition for closure under the idle toggles and for exact closure) -/
 theorem sweepKM_invariant_of_slotClosed (H : Ham) (β : Rat) (hβ : 0 < β) (hw : ∀ b i, 0 ≤ H.w b i i)
-    (S : Finset Config) (hcl : ∀ p b, b < H.nbonds → ∀ c ∈ S, slotFlip H p b c ∈ S) (L : Nat) :
+    (S : Finset Config) (hcl : SlotClosed H S) (L : Nat) :
     Invariant (sseOn H β S) (sweepKM H β S L) := by
   refine invariant_compList _ (fun K hK => ?_)
   obtain ⟨p, -, rfl⟩ := List.mem_map.mp hK
-  exact reversible_invariantOn (slotKM_reversible H β hβ hw p) (slotKM_rowSumOn H β p (hcl p))
+  exact reversible_invariantOn (slotKM_reversible H β hβ hw p) (slotKM_rowSumOn_w H β p hcl)
 
-theorem sweepKM_rowSum_of_slotClosed (H : Ham) (β : Rat) (S : Finset Config)
-    (hcl : ∀ p b, b < H.nbonds → ∀ c ∈ S, slotFlip H p b c ∈ S) (L : Nat) :
-    RowSum (sweepKM H β S L) := by
+theorem sweepKM_rowSum_of_slotClosed (H : Ham) (β : Rat) (S : Finset Config) (hcl : SlotClosed H S)
+    (L : Nat) : RowSum (sweepKM H β S L) := by
   refine rowSum_compList _ (fun K hK => ?_)
   obtain ⟨p, -, rfl⟩ := List.mem_map.mp hK
-  exact restr_rowSum (slotKM_rowSumOn H β p (hcl p))
+  exact restr_rowSum (slotKM_rowSumOn_w H β p hcl)
 
 /-- **the idealised law of the executable Metropolis sweep leaves the SSE weight invariant**, on every
 finite set of legal configurations with `L` slots closed under the diagonal proposals -/
 theorem metropolisSweep_law_invariant_on (H : Ham) (β : Rat) (hβ : 0 < β) (hw : ∀ b i, 0 ≤ H.w b i i)
-    (hNb : 0 < H.nbonds) (S : Finset Config) (L : Nat)
-    (hcl : ∀ p b, b < H.nbonds → ∀ c ∈ S, slotFlip H p b c ∈ S)
+    (hNb : 0 < H.nbonds) (S : Finset Config) (L : Nat) (hcl : SlotClosed H S)
     (hleg : ∀ c ∈ S, DiagLegal H c ∧ c.slots.length = L) :
     Invariant (sseOn H β S) (lawK S (metropolisSweepT H β L)) := by
   rw [law_metropolisSweep H β (le_of_lt hβ) hw hNb S L hcl hleg]
@@ -459,14 +553,14 @@ theorem metropolisSweep_law_invariant_on (H : Ham) (β : Rat) (hβ : 0 < β) (hw
 theorem metropolisSweep_law_invariant (H : Ham) (β : Rat) (hβ : 0 < β) (hw : ∀ b i, 0 ≤ H.w b i i)
     (hNb : 0 < H.nbonds) (N L : Nat) :
     Invariant (sseOn H β (legalSpace H N L)) (lawK (legalSpace H N L) (metropolisSweepT H β L)) :=
-  metropolisSweep_law_invariant_on H β hβ hw hNb _ L (legalSpace_slotFlip H N L) (legalSpace_legal H N L)
+  metropolisSweep_law_invariant_on H β hβ hw hNb _ L (legalSpace_slotClosed H N L) (legalSpace_legal H N L)
 
 /-- from a legal configuration the idealised law of the sweep has total mass 1 on the legal
 configurations: no mass is lost to a panic -/
 theorem metropolisSweep_law_rowSum (H : Ham) (β : Rat) (hβ : 0 ≤ β) (hw : ∀ b i, 0 ≤ H.w b i i)
     (hNb : 0 < H.nbonds) (N L : Nat) :
     RowSum (lawK (legalSpace H N L) (metropolisSweepT H β L)) := by
-  rw [law_metropolisSweep H β hβ hw hNb _ L (legalSpace_slotFlip H N L) (legalSpace_legal H N L)]
-  exact sweepKM_rowSum_of_slotClosed H β _ (legalSpace_slotFlip H N L) L
+  rw [law_metropolisSweep H β hβ hw hNb _ L (legalSpace_slotClosed H N L) (legalSpace_legal H N L)]
+  exact sweepKM_rowSum_of_slotClosed H β _ (legalSpace_slotClosed H N L) L
 
 end Qmc.Law
